@@ -48,6 +48,8 @@ def step_term(st):
             if st.rc != "ok":
                 return None
             return "check_new %s" % absinv.abs_inventory(st.post["staged"][oid], toks)
+        if op.get("literal_src"):
+            return None        # hostile mv sources inside the repository: refused before staging (C08/C12 oracles)
         if o in ("cp_ext", "mv_ext", "cp_int", "mv_int", "rm", "reset"):
             pre, pinv = pre_term(st, oid, toks)
             if pre is None:
